@@ -893,6 +893,18 @@ class _ExprNorm(ast.NodeTransformer):
             return ast.copy_location(ast.BoolOp(op=ast.Or(), values=[node.body, node.orelse]), node)
         return node
 
+    def visit_JoinedStr(self, node):
+        self.generic_visit(node)
+        # f"a{f'{x}'}b" -> f"a{x}b"
+        vals = []
+        for v in node.values:
+            if isinstance(v, ast.FormattedValue) and v.conversion == -1 and v.format_spec is None and isinstance(v.value, ast.JoinedStr):
+                vals += v.value.values
+            else:
+                vals.append(v)
+        node.values = vals
+        return node
+
     def visit_BinOp(self, node):
         self.generic_visit(node)
         # integer literals fold: 8 + 1 -> 9, 64 | 1 -> 65
